@@ -1,12 +1,12 @@
 SPECIFICATION Spec
 CONSTANTS
-  MaxRows = 4
+  MaxRows = 3
   ChanCap = 4
   FixedAlter = TRUE
-  MaxPersists = 4
+  MaxPersists = 3
   MaxDeletes = 2
-  MaxLoads = 2
-  DirectLoad = FALSE
+  MaxLoads = 1
+  DirectLoad = TRUE
   FirstOnlyModified = FALSE
 INVARIANTS QueueFits LayersParallel IndexesAgree StatsExact ReopenSeesAll BtreeCount DurableIndexesAgree
 CHECK_DEADLOCK FALSE
